@@ -27,6 +27,17 @@ PROPS = {
                         "PoolSet::new's production layout (1.3 MiB) is replaced by a hand-laid-out set with few slots per class."),
         "trusted_base": [OS_TRUST, KANI_TRUST],
     },
+    "C13": {
+        "level": "proof",
+        "design_ref": "DESIGN.md section 5, C13",
+        "summary": ("String built-ins against their specification: tw::find / maximal_suffix / crit_period and replace are extracted "
+                    "from the real source and verified by Verus for all inputs against recursive spec functions written from the "
+                    "property statement (first occurrence or None; leftmost non-overlapping substitution), including termination "
+                    "and absence of panics; slice index arithmetic over every pair of f64 bounds by Kani."),
+        "not_covered": ("std wrappers (trim, to_uppercase, to_lowercase, to_number, split, chars().count()) are one-line delegations "
+                        "whose Unicode/IEEE behaviour is assumed from std; memchr's AVX2 implementation is an external contract."),
+        "trusted_base": [VERUS_TRUST, KANI_TRUST, "memchr_rs::memchr/memchr2 behave as documented (external contracts)"],
+    },
 }
 
 
